@@ -5,36 +5,35 @@
 From LibFtp Require Import Bytes Decimal Endpoint Endpoint_Proofs.
 Local Open Scope N_scope.
 
-(* 227: a result implies the parenthesised part (first '(' .. last ')') splits into six
-   comma-separated fields; the address is fields 1-4 verbatim, fields 5 and 6 are decimal numbers
-   <= 255 and the port is 256*f5 + f6 - the number written, never wrapped *)
-Theorem C06_pasv_sound : forall s ip port, try_parse_pasv_reply s = Some (ip, port) ->
-  exists pre inner suf t0 t1 t2 t3 t4 t5 hi lo,
-    parens s pre inner suf /\ split_string inner COMMA = [t0; t1; t2; t3; t4; t5] /\
-    ip = t0 ++ [DOT] ++ t1 ++ [DOT] ++ t2 ++ [DOT] ++ t3 /\
-    field t4 255 hi /\ field t5 255 lo /\ port = hi * 256 + lo.
-Proof. exact pasv_sound. Qed.
-Print Assumptions C06_pasv_sound.
+(* 227: a result exactly when the text between the first '(' and the last ')' is six decimal numbers <= 255 separated by
+   five commas - nothing else: no seventh (empty) field, no sign, no blank, no other address syntax - and then the
+   address is h1.h2.h3.h4 with the numbers written and the port is 256*p1 + p2: the number written, never wrapped *)
+Theorem C06_pasv_iff : forall s ip port, try_parse_pasv_reply s = Some (ip, port) <->
+  exists pre suf t0 t1 t2 t3 t4 t5 a b c d hi lo,
+    parens s pre (join [COMMA] [t0; t1; t2; t3; t4; t5]) suf /\
+    field t0 255 a /\ field t1 255 b /\ field t2 255 c /\ field t3 255 d /\ field t4 255 hi /\ field t5 255 lo /\
+    ip = dotted a b c d /\ port = hi * 256 + lo.
+Proof. exact pasv_iff. Qed.
+Print Assumptions C06_pasv_iff.
 
 (* 227: every well-formed reply, whatever surrounds the parenthesised part, parses to exactly the
    address and port written *)
-Theorem C06_pasv_complete : forall pre suf t0 t1 t2 t3 t4 t5 hi lo,
+Theorem C06_pasv_complete : forall pre suf t0 t1 t2 t3 t4 t5 a b c d hi lo,
   mem LPAR pre = false -> mem RPAR suf = false ->
-  (forall t, In t [t0; t1; t2; t3; t4; t5] -> mem COMMA t = false) ->
-  field t4 255 hi -> field t5 255 lo ->
+  field t0 255 a -> field t1 255 b -> field t2 255 c -> field t3 255 d -> field t4 255 hi -> field t5 255 lo ->
   try_parse_pasv_reply (pre ++ LPAR :: join [COMMA] [t0; t1; t2; t3; t4; t5] ++ RPAR :: suf)
-  = Some (t0 ++ [DOT] ++ t1 ++ [DOT] ++ t2 ++ [DOT] ++ t3, hi * 256 + lo).
+  = Some (dotted a b c d, hi * 256 + lo).
 Proof. exact pasv_complete. Qed.
 Print Assumptions C06_pasv_complete.
 
-(* 227: no parentheses / wrong field count / a port field that is not a decimal <= 255 => error *)
+(* 227: no parentheses / a number of comma-separated pieces other than six ([pieces] splits at EVERY comma and drops
+   nothing) / a piece that is not a decimal number <= 255 => error *)
 Theorem C06_pasv_rejects :
   (forall s, mem LPAR s = false -> try_parse_pasv_reply s = None) /\
   (forall s, mem RPAR s = false -> try_parse_pasv_reply s = None) /\
   (forall s pre inner suf, parens s pre inner suf ->
-     (length (split_string inner COMMA) <> 6%nat \/
-      (forall v, ~ field (nth 4 (split_string inner COMMA) []) 255 v) \/
-      (forall v, ~ field (nth 5 (split_string inner COMMA) []) 255 v)) ->
+     (length (pieces COMMA inner) <> 6%nat \/
+      (exists k, (k < 6)%nat /\ forall v, ~ field (nth k (pieces COMMA inner) []) 255 v)) ->
      try_parse_pasv_reply s = None).
 Proof. exact (conj pasv_rejects_no_lpar (conj pasv_rejects_no_rpar pasv_rejects_fields)). Qed.
 Print Assumptions C06_pasv_rejects.
@@ -84,6 +83,16 @@ Proof. exact epsv_delims_refuted_on_pinned. Qed.
 Theorem C06_port_ipv6_refuted_on_pinned :
   exists t p cmd, make_port_command_pinned (V6 t) p = Some cmd.
 Proof. exact port_ipv6_refuted_on_pinned. Qed.
+Theorem C06_pasv_trailing_comma_refuted_on_pinned :
+  (* "(1,2,3,4,5,6,)": seven fields, the pinned code connected to 1.2.3.4:1286 *)
+  exists s r, try_parse_pasv_reply_pinned s = Some r /\ try_parse_pasv_reply s = None.
+Proof. exact pasv_trailing_comma_refuted_on_pinned. Qed.
+Theorem C06_pasv_host_not_numeric_refuted_on_pinned :
+  (* "(::1,0,0,1,4,5)": the pinned code handed "::1.0.0.1" to make_address, which takes it for an IPv6 address *)
+  exists s r, try_parse_pasv_reply_pinned s = Some r /\ try_parse_pasv_reply s = None.
+Proof. exact pasv_host_not_numeric_refuted_on_pinned. Qed.
+Print Assumptions C06_pasv_trailing_comma_refuted_on_pinned.
+Print Assumptions C06_pasv_host_not_numeric_refuted_on_pinned.
 Print Assumptions C06_pasv_wrap_refuted_on_pinned.
 Print Assumptions C06_epsv_delims_refuted_on_pinned.
 Print Assumptions C06_port_ipv6_refuted_on_pinned.
